@@ -53,6 +53,8 @@ def run(ctx):
         jobs.mc("cap0", cfg([(C11, C11, C12)], caps={1: 0}, init=(), inv=INV + " OwnedModuloDev"), timeout=900)
         # non-vacuity: with the last-session race included the model does produce two sessions for one pair
         jobs.mc("neg_gap", cfg([(panel.S11, C12, C12)], dev=["UserLookupGap"], inv="OneSession"), expect="OneSession")
+        jobs.mc("neg_getuser", cfg([(C11, C11, C12)], dev=panel.CODE_DEV + ["GetUserCheckThenAct"], init=(), caps={1: 2}, inv="OneSession"),
+                expect="OneSession")
         # ---- behaviours
         jobs.gen("arrivals3", cfg([(C11, C11, C12), (C11, C11, C11)], gates=GATES, depth=12, **anch))
         jobs.gen("reopen", cfg([(R11, C11, C11)], gates=GATES, depth=n(10, 14), **anch), simulate=n(120, None))
@@ -65,7 +67,13 @@ def run(ctx):
         jobs.gen("gap", cfg([(panel.S11, C12, C12)], gates=panel.CONN_GATES, depth=14), keep=panel.has_dup)
         jobs.gen("stale", cfg([(panel.S11, R12, C12, C12)], dev=panel.CODE_DEV + ["StaleTerminate"], gates=["unlocked"], depth=12),
                  mode="hypo", keep=lambda b: panel.has_dup(b) and panel.has_unowned(b, "stale-terminate"))
+        # simultaneous FIRST connections of a user parked inside AuthenticateUser: on the unchanged tree GetUser holds
+        # activeUsersM across it, so the second caller never gets there (hypothesis refuted)
+        jobs.gen("getuser", cfg([(C11, C11, C12)], dev=panel.CODE_DEV + ["GetUserCheckThenAct"], init=(), caps={1: 2},
+                                gates=["auth", "resolved"], depth=12),
+                 mode="hypo", keep=lambda b: panel.has_dup(b) and panel.has_unowned(b, "getuser-check-then-act"))
         gens = jobs.gens()
+        gens["getuser"] = panel.thin(gens["getuser"], n(60, 400), ctx.seed)
         for k in gens:
             if not gens[k] and not (k == "gap" and "UserLookupGap" not in panel.CODE_DEV):
                 raise lib.Inconclusive("TLC produced no behaviour for " + k)
